@@ -351,7 +351,15 @@ pub fn run(tier: &str) -> i32 {
         }
         match generate(&p.src, &cfg_for(*r)) {
             Outcome::Ok(t) => {
-                let v = check_model(p, &t);
+                let mut v = check_model(p, &t);
+                // "with bytemuck host-shareable derives enabled" - whatever the other switches say (every 4th program in quick)
+                if thorough || *i % 4 == 0 || p.key.contains("vec3<f32>") && p.key.starts_with("s2|") {
+                    let alt = Config { bytemuck_host: true, bytemuck_vertex: true, encase: true, serde: true, repr: *r, ..Config::default() };
+                    match generate(&p.src, &alt) {
+                        Outcome::Ok(t2) => v.extend(check_model(p, &t2).into_iter().map(|x| format!("[{}] {x}", alt.key()))),
+                        other => v.push(format!("[{}] generation fails: {}", alt.key(), other.class().chars().take(80).collect::<String>())),
+                    }
+                }
                 (Some(t), v)
             }
             other => (None, vec![format!("<generator not Ok: {}>", other.class())]),
